@@ -8,9 +8,9 @@ package main
 // (rrule-go), text comparison on real strings, multi-valued properties.
 
 import (
-	"sort"
 	"fmt"
 	"go/types"
+	"sort"
 	"strings"
 
 	"golang.org/x/tools/go/ssa"
@@ -343,7 +343,7 @@ func c06Text(c *Ctx, f c06Fns) DTXSpec {
 	fn := f.textMatch
 	return DTXSpec{
 		Name: "text-match", Entry: fn,
-		Sym:  SymSpec{},
+		Sym:   SymSpec{},
 		Setup: func(in *Interp) { in.Models = append(in.Models, predicateModels) },
 		Args: func(in *Interp) []Val {
 			return []Val{in.symOf(fn.Params[0].Type(), "txt"), SymStr{Key: "value"}}
